@@ -19,7 +19,12 @@ find $root/target -name ".cargo-lock" -delete 2>/dev/null
 if [ ! -x $root/target/verif/amverif ]; then echo "BUILD-FAILED"; rm -rf $root; exit 2; fi
 rc=0
 for id in "$@"; do
-  out=$(cd /verif && VERIF_OUT=$root/out timeout 1800 $root/target/verif/amverif $id ${TIER:-quick} 2>&1); r=$?
+  if [ -n "${REPLAY:-}" ]; then
+    out=$(cd /verif && VERIF_OUT=$root/out timeout 1800 $root/target/verif/amverif $id --replay "$REPLAY" 2>&1); r=$?
+    echo "$out" | head -5 | cut -c1-300
+  else
+    out=$(cd /verif && VERIF_OUT=$root/out timeout 1800 $root/target/verif/amverif $id ${TIER:-quick} 2>&1); r=$?
+  fi
   echo "$out" | grep -E "^(VIOLATION|KNOWN-FINDING|  signature|$id )" | head -12
   echo "MUTANT-RESULT $id exit=$r"
   [ $r -eq 1 ] || rc=1
